@@ -48,6 +48,12 @@ AttrsOK(r) ==
        /\ r.attrs.twp.s = t /\ r.attrs.rge.s = g /\ r.attrs.sec.s = c
        /\ r.attrs.twprge = t \o g
 
+\* is_error() / is_undef(), asked per component and for the whole, say what the string says: a component is reported
+\* as an error (as undefined) exactly when it is the error (undefined) placeholder, whatever the other components are
+ReportsOK(r) ==
+  LET d == Decompose(r.out)
+      Says(v) == <<d.twp = v, d.rge = v, d.sec = v, d.twp = v \/ d.rge = v \/ d.sec = v>>
+  IN IsExtStd(r.out) => r.attrs.rep_err = Says(Err) /\ r.attrs.rep_undef = Says(Undef)
 Clause(r) ==
   IF r.exc # "none" THEN "exception_raised"
   ELSE IF r.kind = "build" /\ r.out # Canon(Meaning(r.build)) THEN "not_canonical_for_components"
@@ -55,6 +61,7 @@ Clause(r) ==
           (IF IsExtStd(r.input) THEN "standard_string_not_kept" ELSE "nonstandard_string_accepted")
   ELSE IF r.kind = "str" /\ LooksValid(r.out) /\ r.out # LowerAll(r.input) THEN "different_valid_looking_trs"
   ELSE IF ~AttrsOK(r) THEN "attributes_not_decomposition"
+  ELSE IF ~ReportsOK(r) THEN "error_or_undefined_not_reported_per_component"
   ELSE IF r.rewrap # r.out THEN "wrap_not_idempotent"
   ELSE IF ~r.eq THEN "equal_strings_unequal_objects"
   ELSE "ok"
